@@ -20,7 +20,7 @@ def check(pid, passes, rule, text, note, technique, engine, assumptions=(), dead
 
 
 check("C08",
-      passes=[dict(name="C08", src=["harness/C08.cpp"] + ENV, variant="fast", lib=False,
+      passes=[dict(name="C08", src=["harness/C08.cpp"] + ENV, variant="fast",
                    shards={"quick": 16, "thorough": 16})],
       rule="every permutation of n distinct keys (n<=8 quick, n<=10 thorough) and every duplicate-bearing sequence "
            "(len<=7 over 4 keys, len<=6 over 5 keys; thorough len<=8) is inserted into both tree flavours under four "
@@ -397,6 +397,21 @@ check("C20",
       technique="stateless exploration of all thread schedules up to a preemption bound (iterative context bounding) on the "
                 "implementation under a serialising scheduler; separate free-running ThreadSanitizer pass",
       engine="sched", design="3/C20", deadline={"quick": 200, "thorough": 1500})
+
+# Start from a non-initial process state too (engine/prelude.hpp): every pass of every check is repeated, with the quick bounds
+# in both tiers, in a process in which a decoy Lexicon has already lived and died and a second one is still alive -- both having
+# run one broad construction / lookup / substitution / printing program that asks for the spellings the harnesses use.
+DECOY_RULE = (" DECOYS: every pass above is run again (quick bounds in both tiers) in a process where one decoy Lexicon ran a broad "
+              "construction/lookup/substitution/printing program and was destroyed, and a second one ran it and stays alive, before the "
+              "exploration starts; same oracle, so anything the library keeps outside a Lexicon is no longer in its initial state.")
+for _pid, _spec in CHECKS.items():
+    _extra = []
+    for _p in _spec["passes"]:
+        _q = dict(_p)
+        _q.update(name=_p["name"] + "+decoys", build_as=_p["name"], run_tier="quick", env=dict(_p.get("env") or {}, VERIF_PRELUDE="1"))
+        _extra.append(_q)
+    _spec["passes"] = _spec["passes"] + _extra
+    _spec["rule"] += DECOY_RULE
 
 # Properties not claimed (with the reason that goes to MANIFEST.not_applicable).
 NOT_CLAIMED = {}
